@@ -26,7 +26,7 @@ class ScipyMatrix(Matrix):
             raise MatrixError('non-matching shapes')
         if isinstance(mat, ScipyMatrix):
             return mat
-        return ScipyMatrix(scipy.sparse.csr_matrix(mat.export('csr'), self.shape), scipy)
+        return ScipyMatrix(scipy.sparse.csr_matrix(mat.export('csr'), self.shape))
 
     def __add__(self, other):
         return ScipyMatrix(self.core + self.convert(other).core)
